@@ -210,14 +210,14 @@ def check_diagramize(case):
 
 
 core.register("C20", [
-    Facet("layout", layout_cases, check_layout, n_quick=1500,
+    Facet("layout", layout_cases, check_layout, n_quick=3000,
           shards_quick=4, rule=RULE),
     Facet("rendering", render_cases, check_render, n_quick=96,
           shards_quick=8, rule="matplotlib (Agg) and TikZ back-ends render "
           "generated monoidal, rigid, circuit, tensor and ZX diagrams (with "
           "bubbles, special circuit boxes, spiders) without error; TikZ "
           "environments balanced"),
-    Facet("diagramize", diagramize_cases, check_diagramize, n_quick=500,
+    Facet("diagramize", diagramize_cases, check_diagramize, n_quick=1000,
           shards_quick=2, rule="a generated diagram re-declared with the "
           "function-call syntax (boxes applied to the current wires in "
           "planar order, offset= for boxes without inputs) equals the "
